@@ -63,18 +63,21 @@ func initPackage(path string) bool {
 
 func NewInterp(p *Program, solverKind string, timeoutMs int) (*Interp, error) {
 	i := &Interp{
-		prog:        p.prog,
-		globals:     map[*ssa.Global]*value{},
-		globalReady: map[*ssa.Global]bool{},
-		initPkgs:    map[*ssa.Package]bool{},
-		fninfo:      map[*ssa.Function]*fnInfo{},
-		ts:          NewTermStore(),
-		extCache:    map[*ssa.Function]externalFn{},
-		extMiss:     map[*ssa.Function]bool{},
-		funcsRun:    map[*ssa.Function]bool{},
-		typeByName:  map[string]types.Type{},
-		maxSteps:    50_000_000,
+		prog:         p.prog,
+		globals:      map[*ssa.Global]*value{},
+		globalReady:  map[*ssa.Global]bool{},
+		initPkgs:     map[*ssa.Package]bool{},
+		fninfo:       map[*ssa.Function]*fnInfo{},
+		ts:           NewTermStore(),
+		extCache:     map[*ssa.Function]externalFn{},
+		extMiss:      map[*ssa.Function]bool{},
+		funcsRun:     map[*ssa.Function]bool{},
+		typeByName:   map[string]types.Type{},
+		maxSteps:     50_000_000,
 		maxDecisions: 10000,
+		svCache:      map[*Term]*Term{},
+		satCache:     map[*Term]*bitset{},
+		useDomains:   os.Getenv("SYMGO_NODOM") == "",
 	}
 	s, err := NewSolver(solverKind, timeoutMs, nil)
 	if err != nil {
